@@ -2,6 +2,7 @@ import Toq.Proofs.Rand
 import Toq.Proofs.RandPgm
 import Toq.Proofs.RandPost
 import Toq.Proofs.RandCirc
+import Toq.Proofs.RandTol
 /-!
 # C19 — random generators, pretty good / pretty bad measurement, `measure`
 
@@ -485,6 +486,28 @@ theorem measure_model_branch (d m : Nat) (tol : Rat) (htol : 0 ≤ tol) (K ρ : 
 example : let ρ : Nat → Nat → QI := fun i j => if i = j then ⟨1/2, 0⟩ else 0
     let K : Nat → Nat → QI := fun i j => if i = 0 ∧ j = 0 then 1 else 0
     (measureOne 2 (1 / 10000000000) K ρ 2).prob = 1 / 2 ∧ (measureOne 2 (1 / 10000000000) K ρ 2).positive = some true := by
+  decide +kernel
+
+/-- **The tolerance does not enter the reported probability**: for any two values of `tol` the model of `measure` reports the same
+probability (the Born value, `measure_model_born`).  `tol` only selects whether a post-measurement state is produced; an unlikely
+outcome stays an outcome, so the probabilities of a complete measurement sum to one (`measure_probs_sum_one`) whatever `tol` is. -/
+theorem measure_model_prob_tol_indep (d m : Nat) (tol tol' : Rat) (K ρ : Nat → Nat → QI) :
+    (measureOne d tol K ρ m).prob = (measureOne d tol' K ρ m).prob :=
+  measureOne_prob_tol_indep d m tol tol' K ρ
+
+/-- **An outcome below the tolerance keeps its probability**: when the comparison answers `prob ≤ tol`, the model still reports
+`Re tr(K ρ Kᴴ)`, and the post-measurement state is the zero matrix of the state's side length (`np.zeros_like(state)`). -/
+theorem measure_model_below_tol (d m : Nat) (tol : Rat) (K ρ : Nat → Nat → QI)
+    (h : (measureOne d tol K ρ m).positive = some false) :
+    (((measureOne d tol K ρ m).prob : Rat) : ℝ) = (toMatQ m d K * toMatQ d d ρ * (toMatQ m d K)ᴴ).trace.re ∧
+    (measureOne d tol K ρ m).postDim = d ∧ ∀ i j, (measureOne d tol K ρ m).post i j = 0 :=
+  ⟨measureOne_prob d m tol K ρ, measureOne_below d m tol K ρ h⟩
+
+/-- the model on `ρ = diag(2499/2500, 1/2500)`, `K = |1⟩⟨1|`, `tol = 10⁻³`: the outcome has probability `4·10⁻⁴`, below the tolerance,
+and the probability is reported all the same (the hypothesis of `measure_model_below_tol` is satisfiable on a non-trivial instance) -/
+example : let ρ : Nat → Nat → QI := fun i j => if i = j then (if i = 0 then ⟨2499/2500, 0⟩ else ⟨1/2500, 0⟩) else 0
+    let K : Nat → Nat → QI := fun i j => if i = 1 ∧ j = 1 then 1 else 0
+    (measureOne 2 (1 / 1000) K ρ 2).prob = 1 / 2500 ∧ (measureOne 2 (1 / 1000) K ρ 2).positive = some false := by
   decide +kernel
 
 end Toq.C19
